@@ -22,6 +22,7 @@ class Gen:
     full-field setups followed by launch/await, composed with scf.for / scf.if / calls / arithmetic."""
 
     def __init__(self, rng: random.Random, full=True, depth=2, accs=None, launch_vals=True, prethread=False, carried=0.0):
+        self.const_bounds = 0.3  # probability that a loop has constant bounds
         self.carried = carried  # probability that a loop carries a data value / an if yields a data value
         self.r = rng
         self.n = 0
@@ -30,6 +31,15 @@ class Gen:
         self.accs = accs or (ACCS if rng.random() < 0.4 else ACCS[:1])
         self.launch_vals = launch_vals
         self.prethread = prethread
+
+    def loop_bounds(self):
+        """(lb, ub, step) SSA names: function arguments (run-time trip counts) or index constants, including empty
+        ranges (lb == ub, lb > ub) and steps > 1"""
+        if self.r.random() < self.const_bounds:
+            lb, ub = self.r.choice([(0, 0), (0, 1), (0, 2), (0, 3), (1, 4), (2, 2), (3, 1), (4, 4), (0, 4), (1, 1)])
+            return f"%k{lb}", f"%k{ub}", self.r.choice(["%k1", "%k1", "%k2", "%k3"])
+        b = self.r.randrange(NBOUNDS)
+        return f"%lb{b}", f"%ub{b}", f"%st{b}"
 
     def fresh(self, p="v"):
         self.n += 1
@@ -96,7 +106,7 @@ class Gen:
                 cur.clear()
             elif depth > 0:
                 i, ii = self.fresh("i"), self.fresh()
-                b = self.r.randrange(NBOUNDS)
+                lbn, ubn, stn = self.loop_bounds()
                 if self.r.random() < self.carried:
                     # loop-carried data values (running pointers) feeding the setups of the body and of the code after the loop
                     n = self.r.choice([1, 2, 2])
@@ -105,7 +115,7 @@ class Gen:
                     inits = [self.r.choice(vals) for _ in range(n)]
                     ia = ", ".join(f"{p} = {x}" for p, x in zip(ps, inits))
                     tys = ", ".join(["i32"] * n)
-                    out.append(f"{ind}{', '.join(rs)} = scf.for {i} = %lb{b} to %ub{b} step %st{b} iter_args({ia}) -> ({tys}) {{")
+                    out.append(f"{ind}{', '.join(rs)} = scf.for {i} = {lbn} to {ubn} step {stn} iter_args({ia}) -> ({tys}) {{")
                     out.append(f"{ind}  {ii} = arith.index_cast {i} : index to i32")
                     inner = vals + [ii] + ps + ps
                     out += self.block(inner, depth - 1, ind + "  ", self.r.randint(1, 4), {})
@@ -118,7 +128,7 @@ class Gen:
                     out.append(f"{ind}}}")
                     vals += rs + rs
                 else:
-                    out.append(f"{ind}scf.for {i} = %lb{b} to %ub{b} step %st{b} {{")
+                    out.append(f"{ind}scf.for {i} = {lbn} to {ubn} step {stn} {{")
                     out.append(f"{ind}  {ii} = arith.index_cast {i} : index to i32")
                     out += self.block(vals + [ii], depth - 1, ind + "  ", self.r.randint(1, 4), {})
                     out.append(f"{ind}}}")
@@ -133,6 +143,7 @@ class Gen:
         return ("func.func private @g() -> ()\n"
                 f"func.func @f({sig}) {{\n"
                 + ("  %lv = arith.constant 1 : i5\n" if self.launch_vals else "")
+                + "".join(f"  %k{k} = arith.constant {k} : index\n" for k in range(5))
                 + "\n".join(body) + "\n  func.return\n}\n")
 
 
